@@ -13,7 +13,7 @@
  *  (c) structural operations never change the bytes of any area (the area model is only updated by
  *      granted writes).
  * kinds: 0 dup(h)  1 splice(h,a,b)  2 write(h, offset a) + store  3 delete(h,a,b)  4 append(h, fresh 2 octets)
- *        5 resize(h,a,b)  6 free(h)  7 insert(h, a, fresh 2 octets) */
+ *        5 resize(h,a,b)  6 free(h)  7 insert(h, a, fresh 2 octets)  8 split(h, a) -> new handle holding the tail */
 #include "blk.h"
 
 #define MAXH 4
@@ -250,6 +250,23 @@ int main(void)
                 h->live = false;
                 m_drop_from(h, 0);
                 break;
+            case 8: {           /* split at offset a (0 < a < L): the tail becomes a new handle */
+                VASSUME(a > 0 && a < L);
+                int n = free_slot();
+                H[n].u = ubuf_block_split(h->u, a);
+                VASSERT(H[n].u != NULL, "in-range split succeeds");
+                int in = 0, i = seg_of(h, a, &in);
+                /* the code slices the segment holding the offset -- also at its very beginning, which leaves an empty
+                 * segment (still an owner of the area) at the end of the truncated head */
+                m_slice(h, i, in);
+                i++;
+                H[n].live = true;
+                H[n].ns = 0;
+                for (int k = i; k < h->ns; k++)
+                    H[n].s[H[n].ns++] = h->s[k];
+                h->ns = i;
+                break;
+            }
             default: {          /* insert a fresh 2-octet block at offset a (0 <= a < L) */
                 VASSUME(a >= 0 && a < L);
                 int ar = new_area(2);
